@@ -117,6 +117,11 @@ func NewInterp(prog *ssa.Program, cfg *Config) (*Interp, error) {
 	if err != nil {
 		return nil, err
 	}
+	if lf := os.Getenv("VERIF_SOLVER_LOG"); lf != "" {
+		if f, err := os.OpenFile(lf, os.O_CREATE|os.O_WRONLY|os.O_APPEND, 0o644); err == nil {
+			sol.Log = f
+		}
+	}
 	in := &Interp{
 		prog:     prog,
 		tb:       smt.NewTable(),
@@ -885,6 +890,9 @@ func (in *Interp) load(pos token.Pos, addr Value) Value {
 		}
 		return copyVal(*p.C)
 	case SymPtr:
+		if r, ok := in.loadConstTable(p); ok {
+			return r
+		}
 		var res Value
 		first := true
 		for k := len(p.Elems) - 1; k >= 0; k-- {
